@@ -448,6 +448,17 @@ fn judge_manifest(c: &Case, env: &Env, m: &Value, store_manifests: &Map<String, 
                 if r.get("format").and_then(|x| x.as_str()) != Some(e.formats[0].as_str()) {
                     rule(rules, "ingredient-format-mime");
                 }
+                if let Some(t) = &e.title {
+                    let want_d = defgen::GenDef::ingredient_description(t);
+                    let want_u = defgen::GenDef::ingredient_info_uri(t);
+                    if r.get("description").and_then(|x| x.as_str()) != Some(want_d.as_str()) {
+                        out.push(("ingredient-description".into(), format!("ingredient {}: supplied description {:?}, reported {:?}", e.what, want_d, r.get("description"))));
+                    }
+                    let got_u = r.get("informational_URI").or_else(|| r.get("informational_uri")).and_then(|x| x.as_str());
+                    if got_u != Some(want_u.as_str()) {
+                        out.push(("ingredient-informational-uri".into(), format!("ingredient {}: supplied informational_URI {:?}, reported {:?}", e.what, want_u, got_u)));
+                    }
+                }
                 if r.get("thumbnail").is_some() {
                     if c.cfg.thumbs {
                         rule(rules, "ingredient-thumbnail-auto");
